@@ -64,7 +64,7 @@ extern "C" fn on_fatal_signal(sig: libc::c_int) {
         buf[n] = b;
         n += 1;
     }
-    let mut put_num = |mut v: u64, buf: &mut [u8; 96], n: &mut usize| {
+    let put_num = |mut v: u64, buf: &mut [u8; 96], n: &mut usize| {
         let mut d = [0u8; 20];
         let mut k = 0;
         loop {
